@@ -1,11 +1,14 @@
 /-
   Multi-leaf range proofs, part 6: the NMT binding that `ShareProof::verify` (C13) needs, DERIVED.
 
-  `nmtBinds_of_eds`: for a square `e` of width `2^k` with the quadrant parity flags and shares of at least 29 bytes whose
+  `nmtBinds_of_eds_on`: for a square `e` of width `2^k` with the quadrant parity flags and shares of at least 29 bytes whose
   DAH exists, `all = dah.allRootsBytes` are the NMT roots of the axes of `rawSquare e`, and an nmt-rs range proof
   (well-formed 90-byte siblings, 29-byte namespace — both guaranteed by the Rust types) accepted against such a root
   for a range with `end ≤ width` proves exactly that range of the axis, under the namespace each share is committed
-  with (idealised NMT hash).  This is `NmtBinds` of `Proofs/C13Share.lean` with the two type invariants made explicit.
+  with — for every NMT hash with 32-byte output that has no collision among `S`, where `S` contains the inputs hashed
+  when the DAH was computed (`Eds.edsInputs`), the leaf preimages of the presented shares and the inputs of this
+  verification (`proofInputs`).  `shareLoopInputs` collects the latter two for the whole loop of `ShareProof::verify`.
+  (The earlier hypothesis `HashOK h` was contradictory — audit item X1 — the lemmas stated with it are gone.)
 -/
 import Lumina.Proofs.NmtMultiSound
 import Lumina.Proofs.C13Share
@@ -20,13 +23,26 @@ open Lumina.Proofs.C13 (nobsOf)
 open Lumina.Proofs.Merkle
 open Lumina.Model.Merkle (HashFns Proof)
 
-/-- `NmtBinds` with the Rust type invariants of the proof (90-byte siblings) and of the namespace (29 bytes) as premises -/
-def NmtBindsWF (h : HashFn) (w : Nat) (sq all : List Bytes) : Prop :=
+/-- `NmtBinds` relative to a set `S` of hash inputs, with the Rust type invariants of the proof (90-byte siblings) and of
+    the namespace (29 bytes) as premises: the conclusion is claimed for verifications whose own hashed inputs (leaf
+    preimages of the presented shares, `proofInputs`) lie in `S` -/
+def NmtBindsOn (h : HashFn) (S : Bytes → Prop) (w : Nat) (sq all : List Bytes) : Prop :=
   ∀ (idx : Nat) (r : Bytes) (root : NsHash) (p : NsProof) (raws : List Bytes) (ns : Bytes),
     all[idx]? = some r → NsHash.ofBytes? r = some root → (∀ x ∈ p.siblings, x.WF) → ns.length = 29 →
+    (∀ d ∈ raws, S (leafInput ns d)) →
+    (∀ y ∈ proofInputs h p.ignoreMaxNs (raws.map (hashLeaf h ns)) p.siblings p.start, S y) →
     verifyRange h p root raws ns = .ok () → p.end_ ≤ w →
     raws = ((axisShares w sq idx).drop p.start).take (p.end_ - p.start) ∧
       nsAllAt w idx ns p.start raws = true
+
+/-- the inputs hashed by the range-proof loop of `ShareProof::verify`: per proof the leaf preimages of its share group
+    (under the claimed namespace) and the `hash_nodes` inputs of `check_range_proof` -/
+def shareLoopInputs (h : HashFn) (ns : Bytes) : List Bytes → List NsProof → List Bytes
+  | _, [] => []
+  | data, p :: ps =>
+    (data.take (p.end_ - p.start)).map (leafInput ns) ++
+      proofInputs h p.ignoreMaxNs ((data.take (p.end_ - p.start)).map (hashLeaf h ns)) p.siblings p.start ++
+      shareLoopInputs h ns (data.drop (p.end_ - p.start)) ps
 
 /-- the axis the `idx`-th DAH root commits to -/
 def axisOf (w idx : Nat) : Axis × Nat := if idx < w then (.row, idx) else (.col, idx - w)
@@ -112,13 +128,16 @@ theorem nsAllAt_of {w idx : Nat} {ns : Bytes} : ∀ (raws : List Bytes) (pos : N
     have e1 : pos + 1 + i = pos + (i + 1) := by omega
     rw [e1]; exact this
 
-/-- the root of the `idx`-th DAH entry is the root of its axis -/
+/-- the root of the `idx`-th DAH entry is the root of its axis; the axis' hashed inputs are among `edsInputs` -/
 theorem dah_entry {H : HashFn} (hl : HashLen H) {e : Eds} {dah : Dah} (hd : Dah.ofEds H e = .ok dah)
     (hsz : ∀ sh ∈ e.shares, NS_SIZE ≤ sh.data.length) {idx : Nat} {r : Bytes} {root : NsHash}
     (hr : dah.allRootsBytes[idx]? = some r) (hp : NsHash.ofBytes? r = some root) :
     idx < 2 * e.width ∧ ∃ shares, e.axis? (axisOf e.width idx).1 (axisOf e.width idx).2 = some shares ∧
       computeRoot H true (shares.map (Share.leafHash H)) = .ok root ∧ shares.length = e.width ∧
-      AllLeaf H (shares.map (Share.leafHash H)) := by
+      AllLeafOn H (fun y => y ∈ edsInputs H e) (shares.map (Share.leafHash H)) ∧
+      (∀ y ∈ rootInputs H true ((shares.map (Share.leafHash H)).length + 1) (shares.map (Share.leafHash H)),
+        y ∈ edsInputs H e) ∧
+      (∀ sh ∈ shares, leafInput sh.ns sh.data ∈ edsInputs H e) := by
   obtain ⟨hrl, hcl, hrows, hcols⟩ := dah_ofEds_roots hd
   unfold Dah.allRootsBytes at hr
   rw [List.getElem?_map] at hr
@@ -130,6 +149,8 @@ theorem dah_entry {H : HashFn} (hl : HashLen H) {e : Eds} {dah : Dah} (hd : Dah.
       have := (List.getElem?_eq_some_iff.mp hg).1
       simp only [List.length_append, hrl, hcl] at this; omega
     refine ⟨hidx, ?_⟩
+    have hax2 : (axisOf e.width idx).2 < e.width := by
+      unfold axisOf; split <;> simp <;> omega
     -- the axis root
     have haxr : e.axisRoot H (axisOf e.width idx).1 (axisOf e.width idx).2 = .ok rt := by
       by_cases hw : idx < e.width
@@ -151,22 +172,27 @@ theorem dah_entry {H : HashFn} (hl : HashLen H) {e : Eds} {dah : Dah} (hd : Dah.
       injection hy2 with hy2
       rw [hy2]
       exact List.mem_of_getElem? hy1
-    have al : AllLeaf H (shares.map (Share.leafHash H)) := by
-      intro x hx
-      obtain ⟨y, hy, rfl⟩ := List.mem_map.mp hx
-      exact ⟨y.ns, y.data, share_ns_length (hsz y (hmem y hy)), rfl⟩
-    have wrt : rt.WF := computeRoot_WF hl (AllLeaf.allWF hl al) hcr
+    have al : AllLeafOn H (fun y => y ∈ edsInputs H e) (shares.map (Share.leafHash H)) :=
+      (axis_allLeafOn hax (fun sh hsh => hsz sh (hmem sh hsh))).mono (fun y hy => axisInputs_mem_eds hax2 hy)
+    have wrt : rt.WF := computeRoot_WF hl (AllLeaf.allWF hl al.allLeaf) hcr
     have : root = rt := by
       rw [← hr, ofBytes_toBytes wrt] at hp
       injection hp with hp; exact hp.symm
     subst this
-    exact ⟨shares, hax, hcr, hlen, al⟩
+    refine ⟨shares, hax, hcr, hlen, al, fun y hy => axisInputs_mem_eds hax2 (axis_rootInputs_mem hax hy), ?_⟩
+    intro sh hsh
+    apply axisInputs_mem_eds hax2 (ax := (axisOf e.width idx).1)
+    unfold axisInputs; rw [hax]
+    exact List.mem_append_left _ (List.mem_map.mpr ⟨sh, hsh, rfl⟩)
 
-/-- **`NmtBinds` derived** from the multi-leaf range-proof soundness, for the DAH of a power-of-two square -/
-theorem nmtBinds_of_eds {h : HashFn} (hk : HashOK h) {e : Eds} {k : Nat} (hsq : SquareShape e) (hw : e.width = 2 ^ k)
-    {dah : Dah} (hd : Dah.ofEds h e = .ok dah) : NmtBindsWF h e.width (rawSquare e) dah.allRootsBytes := by
-  intro idx r root p raws ns hr hp wp hns hv hend
-  obtain ⟨hidx, shares, hax, hcr, hlen, al⟩ := dah_entry hk.hlen hd hsq.size hr hp
+/-- **`NmtBinds` derived** from the multi-leaf range-proof soundness, for the DAH of a power-of-two square, relative to
+    any `S` that contains the inputs hashed when the DAH was computed -/
+theorem nmtBinds_of_eds_on {h : HashFn} {S : Bytes → Prop} (hk : HashOKOn h S) {e : Eds} {k : Nat} (hsq : SquareShape e)
+    (hw : e.width = 2 ^ k) {dah : Dah} (hd : Dah.ofEds h e = .ok dah) (hS : ∀ y ∈ edsInputs h e, S y) :
+    NmtBindsOn h S e.width (rawSquare e) dah.allRootsBytes := by
+  intro idx r root p raws ns hr hp wp hns hlS hV hv hend
+  obtain ⟨hidx, shares, hax, hcr, hlen, al, hT, hLI⟩ := dah_entry hk.hlen hd hsq.size hr hp
+  have alS : AllLeafOn h S (shares.map (Share.leafHash h)) := al.mono hS
   rw [axisShares_eq hax]
   unfold verifyRange at hv
   split at hv
@@ -186,14 +212,15 @@ theorem nmtBinds_of_eds {h : HashFn} (hk : HashOK h) {e : Eds} {k : Nat} (hsq : 
           | nil => exact absurd rfl hemp
           | cons a t => simp
         have hXl : (raws.map (hashLeaf h ns)).length = raws.length := by simp
-        have hsnd := checkRangeProof_multi_sound hk (j := k) al (by rw [List.length_map, hlen, hw]) hcr
-          (by intro x hx; obtain ⟨d, _, rfl⟩ := List.mem_map.mp hx; exact ⟨ns, d, hns, rfl⟩) wp hX1
-          (by rw [hXl, ← hw]; omega) hv
+        have hsnd := checkRangeProof_multi_sound_on hk (j := k) alS (by rw [List.length_map, hlen, hw]) hcr
+          (by intro x hx; obtain ⟨d, hd', rfl⟩ := List.mem_map.mp hx; exact ⟨ns, d, hns, rfl, hlS d hd'⟩) wp hX1
+          (by rw [hXl, ← hw]; omega) hV (fun y hy => hS y (hT y hy)) hv
         rw [hXl] at hsnd
         -- pointwise: the i-th raw leaf is the data of the share at start + i, whose namespace is ns
         have hpt : ∀ i d, raws[i]? = some d → ∃ sh, shares[p.start + i]? = some sh ∧ sh.data = d ∧ sh.ns = ns := by
           intro i d hd'
           have hi : i < raws.length := (List.getElem?_eq_some_iff.mp hd').1
+          have hdm : d ∈ raws := List.mem_of_getElem? hd'
           have h1 : (raws.map (hashLeaf h ns))[i]? = some (hashLeaf h ns d) := by
             rw [List.getElem?_map, hd']; rfl
           rw [hsnd, List.getElem?_take, if_pos hi, List.getElem?_drop, List.getElem?_map] at h1
@@ -201,10 +228,13 @@ theorem nmtBinds_of_eds {h : HashFn} (hk : HashOK h) {e : Eds} {k : Nat} (hsq : 
           | none => simp [hs] at h1
           | some sh =>
             simp only [hs, Option.map_some, Option.some.injEq] at h1
+            have hshm : sh ∈ shares := List.mem_of_getElem? hs
             unfold Share.leafHash at h1
             have hnse : sh.ns = ns := congrArg NsHash.minNs h1
-            rw [hnse] at h1
-            exact ⟨sh, rfl, (hashLeaf_inj hk rfl (congrArg NsHash.hash h1)).2, hnse⟩
+            have hSsh : S (leafInput sh.ns sh.data) := hS _ (hLI sh hshm)
+            have h2 : (hashLeaf h sh.ns sh.data).hash = (hashLeaf h ns d).hash := congrArg NsHash.hash h1
+            rw [hnse] at h2 hSsh
+            exact ⟨sh, rfl, (hashLeaf_inj_on hk.inj rfl hSsh (hlS d hdm) h2).2, hnse⟩
         refine ⟨?_, ?_⟩
         · apply List.ext_getElem?
           intro i
@@ -220,20 +250,21 @@ theorem nmtBinds_of_eds {h : HashFn} (hk : HashOK h) {e : Eds} {k : Nat} (hsq : 
           rw [← hs2, ← hs3]
           exact leafNsAt_eq hsq hidx (by omega) hax hs1
 
-/-- `slicesBound_of_ok` of `Proofs/C13Share.lean` with the binding hypothesis in the derived form -/
-theorem slicesBound_of_ok' {D : Type} [DecidableEq D] (H : HashFns D) (h : HashFn) (w : Nat)
-    (sq all : List Bytes) (hn : NmtBindsWF h w sq all) (ns : Bytes) (hns : ns.length = 29) :
+/-- `slicesBound_of_ok` of `Proofs/C13Share.lean` with the binding hypothesis in the derived, `S`-relative form; the
+    inputs hashed by the loop (`shareLoopInputs`) must lie in `S` -/
+theorem slicesBound_of_ok_on {D : Type} [DecidableEq D] (H : HashFns D) (h : HashFn) (S : Bytes → Prop) (w : Nat)
+    (sq all : List Bytes) (hn : NmtBindsOn h S w sq all) (ns : Bytes) (hns : ns.length = 29) :
     ∀ (nps : List NsProof) (rs : List Bytes) (mps : List (Proof D)) (data : List Bytes),
-      (∀ np ∈ nps, ∀ x ∈ np.siblings, x.WF) →
+      (∀ np ∈ nps, ∀ x ∈ np.siblings, x.WF) → (∀ y ∈ shareLoopInputs h ns data nps, S y) →
       Lumina.Model.ShareProof.rangeLoop h ns data nps rs = .ok →
       bindsAll H all rs (mps.map Lumina.Proofs.C13.obsOf) = true → (∀ p ∈ mps, p.total = all.length) →
       nps.length = rs.length → rs.length = mps.length →
       slicesBound w sq ns data (nps.map nobsOf) (mps.map Lumina.Proofs.C13.obsOf) = true := by
   intro nps
   induction nps with
-  | nil => intro rs mps data _ _ _ _ _ _; simp [slicesBound]
+  | nil => intro rs mps data _ _ _ _ _ _ _; simp [slicesBound]
   | cons np nps ih =>
-    intro rs mps data hwf hl hb ht h1 h2
+    intro rs mps data hwf hVL hl hb ht h1 h2
     cases rs with
     | nil => simp at h1
     | cons r rs =>
@@ -241,6 +272,7 @@ theorem slicesBound_of_ok' {D : Type} [DecidableEq D] (H : HashFns D) (h : HashF
       | nil => simp at h2
       | cons mp mps =>
         simp only [Lumina.Model.ShareProof.rangeLoop] at hl
+        simp only [shareLoopInputs, List.mem_append] at hVL
         by_cases hlen : data.length < np.end_ - np.start
         · simp [hlen] at hl
         · simp only [hlen, ↓reduceIte] at hl
@@ -272,9 +304,29 @@ theorem slicesBound_of_ok' {D : Type} [DecidableEq D] (H : HashFns D) (h : HashF
                     split at hv
                     · cases hv
                     · cases u; exact hv
-                  exact hn mp.index r root np _ ns hidx hr (hwf np (by simp)) hns hv' hw
+                  exact hn mp.index r root np _ ns hidx hr (hwf np (by simp)) hns
+                    (fun d hd => hVL _ (Or.inl (Or.inl (List.mem_map.mpr ⟨d, hd, rfl⟩))))
+                    (fun y hy => hVL y (Or.inl (Or.inr hy))) hv' hw
                 · left; exact hw
-              · exact ih rs mps _ (fun q hq => hwf q (by simp [hq])) hl hb2 (fun p hp => ht p (by simp [hp]))
-                  (by simpa using h1) (by simpa using h2)
+              · exact ih rs mps _ (fun q hq => hwf q (by simp [hq])) (fun y hy => hVL y (Or.inr hy)) hl hb2
+                  (fun p hp => ht p (by simp [hp])) (by simpa using h1) (by simpa using h2)
+
+/-! ### transitional corollaries (old names, contradictory hypothesis `HashOK`): kept only until `Props/C13.lean` is ported -/
+
+def NmtBindsWF (h : HashFn) (w : Nat) (sq all : List Bytes) : Prop := NmtBindsOn h (fun _ => True) w sq all
+
+theorem nmtBinds_of_eds {h : HashFn} (hk : HashOK h) {e : Eds} {k : Nat} (hsq : SquareShape e) (hw : e.width = 2 ^ k)
+    {dah : Dah} (hd : Dah.ofEds h e = .ok dah) : NmtBindsWF h e.width (rawSquare e) dah.allRootsBytes :=
+  nmtBinds_of_eds_on (S := fun _ => True) ⟨fun a b _ _ hab => hk.inj hab, hk.len⟩ hsq hw hd (fun _ _ => trivial)
+
+theorem slicesBound_of_ok' {D : Type} [DecidableEq D] (H : HashFns D) (h : HashFn) (w : Nat)
+    (sq all : List Bytes) (hn : NmtBindsWF h w sq all) (ns : Bytes) (hns : ns.length = 29)
+    (nps : List NsProof) (rs : List Bytes) (mps : List (Proof D)) (data : List Bytes)
+    (hwf : ∀ np ∈ nps, ∀ x ∈ np.siblings, x.WF) :
+    Lumina.Model.ShareProof.rangeLoop h ns data nps rs = .ok →
+    bindsAll H all rs (mps.map Lumina.Proofs.C13.obsOf) = true → (∀ p ∈ mps, p.total = all.length) →
+    nps.length = rs.length → rs.length = mps.length →
+    slicesBound w sq ns data (nps.map nobsOf) (mps.map Lumina.Proofs.C13.obsOf) = true :=
+  slicesBound_of_ok_on H h (fun _ => True) w sq all hn ns hns nps rs mps data hwf (fun _ _ => trivial)
 
 end Lumina.Proofs.NmtMulti
